@@ -296,6 +296,13 @@ Proof. eexists. split; [vm_compute; reflexivity|]. split; reflexivity. Qed.
 Example c16_fate_instance : fate_ok (Killed 11 true) = true /\ raw_of_fate (Killed 11 true) = 139 /\ status_of_wait 139 = Failed.
 Proof. repeat split; reflexivity. Qed.
 
+(* POSIX: two names that differ only in letter case are two variables; neither suppresses the other, whatever the source *)
+Example c16_env_case_sensitive :
+  let e := build_env [49] [48] [51] [([104;116;116;112], [114])] true [[72;84;84;80;61;98]; [72;116;116;112;61;109]] None in
+  lookup [104;116;116;112] e = Some [114] /\ lookup [72;84;84;80] e = Some [98] /\ lookup [72;116;116;112] e = Some [109] /\
+  render e = [K_BUILD_ID ++ [61;49]; K_LANE_ID ++ [61;48]; [104;116;116;112;61;114]; [72;84;84;80;61;98]; [72;116;116;112;61;109]; K_TASK_ID ++ [61;51]].
+Proof. vm_compute. repeat split; reflexivity. Qed.
+
 Example c16_env_instance :
   clean_key [97;98] = true /\
   getenv [97;98] (render (build_env [49] [48] [51] [([97;98], [99])] true [[97;98;61;122]] None)) = Some [99].
